@@ -13,7 +13,7 @@ owner's shared context, so a handler may legitimately not start when that contex
 context, whose failure makes the task manager refuse submissions) has failed — but only a failure
 recorded BEFORE the event that seals the handler's fate counts (`handlerFate`, `sealsFate`):
 the handler's own close without a first command (`done h false`, whose clause demands a cause before
-it) or a refused submission of the try (`hrej`, which demands a root cause before it).  A failure
+it) or a refused submission of the try (`hrej`, which demands a cause before it as well).  A failure
 that comes later — e.g. of the fail handler, after `finally` could have started — excuses nothing
 (`handler_starts_unless_prior_cause`, `finally_starts_unless_prior_cause`; the try goroutine submits
 `finally` first: `finally_submitted_first`).  "Never starts while the other handler runs" cannot be
@@ -123,7 +123,7 @@ theorem handlers_after_body_and_spawned (g : Graph) (hw : wf g = true) (sched : 
     (∀ t ok i y, (run g sched).tr = pre ++ Ev.done t ok :: post → g.cmdAt t i = some (.try_ y) →
       Ev.ret t i true ∈ pre →
       hasDone pre (g.tryd y).body ∧ (∀ h ∈ g.handlers y, Ev.cmd h 0 ∈ pre → hasDone pre h) ∧
-      (∀ h ∈ g.handlers y, Ev.hacc h ∈ pre → hasDone pre h ∨ acceptedAfterCause g pre h)) := by
+      (∀ h ∈ g.handlers y, Ev.hacc h ∈ pre → hasDone pre h)) := by
   have hW := (wf_iff g).mp hw
   have htr := run_traceOk hW sched
   refine ⟨fun h y hs hy hh => ?_, fun t ok i c hs hc hret => ?_, fun t ok i y hs hc hret => ?_⟩
@@ -185,13 +185,11 @@ theorem body_failure_contained (g : Graph) (hw : wf g = true) (sched : List Labe
     simp only [if_true] at this
     exact this u (List.mem_range.mpr hu) hd
 
-/-- In the model the owner of a try block is blocked in the `pip:try` command until every handler that
-was accepted by the task manager has closed: in every state of every run in which the owner is not
-(any more) blocked there, an accepted handler has closed.  (The implementation deviates when the
-handler was accepted into a context that had already failed: `scope.NewChild` does not register a
-child of a scope that is done, so the owner does not wait for it — finding KF-C16-1.  The monitor
-tolerates exactly that case: the alternative `acceptedAfterCause` of `handlers_after_body_and_spawned`
-and of `handlerFate`.) -/
+/-- The owner of a try block is blocked in the `pip:try` command until every handler that was accepted
+by the task manager has closed: in every state of every run in which the owner is not (any more)
+blocked there, an accepted handler has closed.  (Before the repair "a pipeline task signs on to the
+scope it is started in" the implementation let a handler that was accepted into an already failed
+context run detached from its owner; now such a submission is refused.) -/
 theorem accepted_handlers_close_before_owner_leaves (g : Graph) (hw : wf g = true) (sched : List Label)
     (y h : Nat) (hy : y < g.tries.length) (hh : h ∈ g.handlers y)
     (hna : (run g sched).pc (g.tryd y).owner ≠ .afterCmd (g.tryd y).idx)
@@ -204,18 +202,15 @@ theorem accepted_handlers_close_before_owner_leaves (g : Graph) (hw : wf g = tru
 /-- Handlers are SUBMITTED only after the body has closed with the matching outcome: the acceptance
 (`hacc`) or refusal (`hrej`) of a handler submission is preceded by the close of the body — any close
 for `finally`, a close without error for the success handler, with an error for the fail handler —
-and a refusal moreover by a cause of failure in the ROOT context (in the model the manager refuses a
-handler only because the root scope is done; the clause of the monitor asks for a cause in the
-handler's or the root context, which is what the implementation will do once KF-C16-1 is repaired). -/
+and a refusal moreover by a cause of failure in the handler's (= the owner's) or the root context:
+the task manager refuses a task only when the scope it is started in, or the root scope, is done. -/
 theorem handlers_submitted_after_body (g : Graph) (hw : wf g = true) (sched : List Label) (pre post : List Ev)
     (h : Nat) :
     ((run g sched).tr = pre ++ Ev.hacc h :: post → isHandler g h = true ∧ submitted g pre h) ∧
     ((run g sched).tr = pre ++ Ev.hrej h :: post →
-      isHandler g h = true ∧ submitted g pre h ∧ causeIn g 0 pre) := by
+      isHandler g h = true ∧ submitted g pre h ∧ causeFor g pre h) := by
   have htr := run_traceOk ((wf_iff g).mp hw) sched
-  have ho := run_traceOrd ((wf_iff g).mp hw) sched
-  exact ⟨fun hs => htr pre _ post hs,
-    fun hs => ⟨(htr pre _ post hs).1, (htr pre _ post hs).2.1, (ho pre _ post hs).2⟩⟩
+  exact ⟨fun hs => htr pre _ post hs, fun hs => htr pre _ post hs⟩
 
 /-- In every run the try goroutine submits `finally` FIRST: when the submission of the fail or of the
 success handler is decided (accepted or refused), the finally handler of the same try — if one is
